@@ -244,7 +244,8 @@ pub trait ExCryptoRng: RngCore {
 verus!{
 // ---------------------------------------------------------------- type-level side conditions
 // (each concrete algorithm type is shown to satisfy them: spec/lemmas.rs `suite_ok_*`)
-pub open spec fn aead_ok<A: crate::aead::Aead>() -> bool { 8 <= nn_of::<A::AeadImpl>() }
+// Nn >= 8 (the 64-bit counter must fit into the nonce) and a tag small enough that |pt| + Nt cannot overflow
+pub open spec fn aead_ok<A: crate::aead::Aead>() -> bool { 8 <= nn_of::<A::AeadImpl>() && nt_of::<A::AeadImpl>() <= 0xffff }
 pub open spec fn kdf_ok<K: crate::kdf::Kdf>() -> bool { 1 <= nh_of::<K::HashImpl>() <= 64 }
 pub open spec fn suite_ok<A: crate::aead::Aead, K: crate::kdf::Kdf>() -> bool {
     aead_ok::<A>() && kdf_ok::<K>()
@@ -353,4 +354,5 @@ pub broadcast axiom fn sz_chacha() ensures #[trigger] nk_of::<chacha20poly1305::
 pub broadcast axiom fn sz_empty() ensures #[trigger] nk_of::<crate::aead::EmptyAeadImpl>() == 0, #[trigger] nn_of::<crate::aead::EmptyAeadImpl>() == 128, #[trigger] nt_of::<crate::aead::EmptyAeadImpl>() == 0;
 pub broadcast group alg_sizes { nh_sha256, nh_sha384, nh_sha512, sz_aes128, sz_aes256, sz_chacha, sz_empty }
 }
+
 
